@@ -352,14 +352,17 @@ func c10Rules() []c10Rule {
 				return m("cpus", 0.5, "deploy", m("resources", m("limits", m("cpus", "1.5")))), nil
 			},
 			Ctl: func(v int) (map[string]any, map[string]any) {
-				return m("cpus", 1.5, "deploy", m("resources", m("limits", m("cpus", "1.5")))), nil
+				// agreeing values, or no counterpart at all (a limits section about something else sets no cpus)
+				return []map[string]any{m("cpus", 1.5, "deploy", m("resources", m("limits", m("cpus", "1.5")))), m("cpus", 2, "deploy", m("resources", m("limits", m("memory", "1g")))),
+					m("cpus", 2, "deploy", m("resources", m("reservations", m("cpus", "0.5")))), m("cpus", 2, "deploy", m("replicas", 1))}[v%4], nil
 			}},
 		{Name: "paired-memory", Service: true,
 			Make: func(v int) (map[string]any, map[string]any) {
 				return m("mem_limit", "64m", "deploy", m("resources", m("limits", m("memory", "128m")))), nil
 			},
 			Ctl: func(v int) (map[string]any, map[string]any) {
-				return m("mem_limit", "128m", "deploy", m("resources", m("limits", m("memory", "134217728")))), nil
+				return []map[string]any{m("mem_limit", "128m", "deploy", m("resources", m("limits", m("memory", "134217728")))), m("mem_limit", "128m", "deploy", m("resources", m("limits", m("cpus", "0.5")))),
+					m("mem_limit", "128m", "deploy", m("resources", m("limits", m("pids", 10))))}[v%3], nil
 			}},
 		{Name: "paired-memory-reservation", Service: true,
 			Make: func(v int) (map[string]any, map[string]any) {
@@ -390,7 +393,7 @@ func c10Rules() []c10Rule {
 			}},
 		{Name: "secret-without-source",
 			Make: func(v int) (map[string]any, map[string]any) {
-				return nil, m("secrets", m("sec", []any{m(), m("labels", m("a", "b")), m("name", "n")}[v%3]))
+				return nil, m("secrets", m("sec", []any{m(), m("labels", m("a", "b")), m("name", "n"), m("external", false), m("external", false, "name", "n")}[v%5]))
 			},
 			Ctl: func(v int) (map[string]any, map[string]any) {
 				return nil, m("secrets", m("sec", []any{m("external", true), m("environment", "E"), m("file", "./f")}[v%3]))
@@ -409,7 +412,7 @@ func c10Rules() []c10Rule {
 			}},
 		{Name: "config-without-source",
 			Make: func(v int) (map[string]any, map[string]any) {
-				return nil, m("configs", m("cfg", []any{m(), m("labels", m("a", "b"))}[v%2]))
+				return nil, m("configs", m("cfg", []any{m(), m("labels", m("a", "b")), m("external", false), m("external", false, "name", "n")}[v%4]))
 			},
 			Ctl: func(v int) (map[string]any, map[string]any) { return nil, m("configs", m("cfg", m("external", true))) }},
 		{Name: "config-with-several-sources",
